@@ -18,12 +18,17 @@ LEVEL_TEXT = ("TLC checks the laws of the VecAlgebra specification for every vec
               "3-vectors, member / free-function forms, constructors, conversions, operator[], pointer view, streaming) "
               "and each result component is compared exactly; rcp / normalize / length / sin / cos results recorded from the real code are validated "
               "by TLC against the specification's rationals within 2^-17 and against the scalar functions; the LIFTING LAW is judged by TLC bit for bit on "
-              "general operands (non-dyadic floats, subnormals, huge values, signed zeros, full-range integers): for every operator / functor and "
+              "general operands (non-dyadic floats, subnormals, huge values, signed zeros, infinities, full-range integers incl. 2^k-1 / 2^k / 2^k+1; "
+              "integer + - * wherever the language defines every result: unsigned 32/64-bit wrap-around and the narrow types; element-type "
+              "conversions, long_product, the vec4f colour helpers): for every operator / functor and "
               "overload family the recorded components of the vector result must equal the recorded results of the C++ scalar operator applied to "
               "each component pair; seeded random long executions of a real "
               "vec_t register are validated by TLC against the trace specification")
-LEVEL_NOTE = ("values are decided on the bounded exact-arithmetic domain; beyond it only the lifting law (vector result = real scalar operator per "
-              "component, bit for bit, signed zeros included; NaN / infinite OPERANDS excluded) is judged on seeded random and edge operands - it does "
+LEVEL_NOTE = ("degenerate and aliasing operands are part of the decided domain: zero components and the zero vector, parallel / anti-parallel "
+              "operands, byte values NUL / 0x7f / 0x80 / 0xff, values at the bounds of every element type for conversions, operands that are the "
+              "same object (a op= a; a op= a.c with the scalar operand a component of a: expected = the lifting with the value the component had at "
+              "the call). Values are decided on the bounded exact-arithmetic domain; beyond it only the lifting law (vector result = real scalar operator per "
+              "component, bit for bit, signed zeros included; infinite operands included, NaN operands excluded, a NaN result must be NaN on both sides) is judged on seeded random and edge operands - it does "
               "not say what the scalar operator should return. divRoundUp has a specified value for positive operands only (the two formulas rkmath.h "
               "has used differ elsewhere). Bounded domain: operand components from {-5,-3,-2,1,2,4,7} (signed and floating-point element types) and "
               "{1,2,4,7,11,250} (unsigned), pairwise distinct and non-zero, plus derived tuples (exact quotients, shifted tuples that agree in some "
@@ -48,12 +53,16 @@ CXX = {"uc": "uint8_t", "c": "int8_t", "us": "uint16_t", "s": "int16_t", "ui": "
 # overloads the header does not offer (instantiation does not compile): (operation, element type)
 NOT_OFFERED = {("abs", "ui"): "std::abs(unsigned int) is ambiguous", ("abs", "ul"): "std::abs(unsigned long) is ambiguous"}
 COMP = "xyzw"
+# case classes that have their own vacuity guards
+CLASSES = ("extremes", "ties", "float-rhs", "wide-int-rhs", "zeros", "parallel", "alias", "bytes", "boundaries")
+# the one signature of the aliasing finding family: "v op= v.c" - the scalar operand is a component of the assigned vector
+ALIAS_SIG = "vec.h/compound-assign(scalar-operand-aliases-a-component-of-the-assigned-vector)/components-after-it"
 OPNAME = {"neg": "operator-(unary)", "pos": "operator+(unary)", "radd": "reduce_add", "rmul": "reduce_mul", "rmin": "reduce_min", "rmax": "reduce_max",
           "argmax": "arg_max", "idx": "operator[]", "eqself": "operator==", "stream": "operator<<", "lprod": "long_product", "add": "operator+",
           "sub": "operator-", "mul": "operator*", "div": "operator/", "mod": "operator%", "dru": "divRoundUp", "eq": "operator==", "ne": "operator!=",
           "anylt": "anyLessThan", "less": "std::less", "interp": "interpolate_uv", "conv": "convert", "splat": "vec_t(scalar)",
           "v3from2": "vec_t<T,3>(vec2,z)", "v4from22": "vec_t<T,4>(vec2,vec2)", "v4from3": "vec_t<T,4>(vec3,w)", "repad": "vec3<->vec3a",
-          "sin0": "sin", "cos0": "cos", "Mca": "compound assignment (right-hand side of another type)"}
+          "sin0": "sin", "cos0": "cos", "length0": "length(zero vector)", "safenorm0": "safe_normalize(zero vector)", "lprod": "long_product", "Mca": "compound assignment (right-hand side of another type)"}
 
 
 # ---------------------------------------------------------------------------------------------
@@ -145,10 +154,12 @@ def gen_jobs(quick):
         add("bin", 2, "S", 1); add("bin", 2, "U", 1); add("bin", 3, "U", 1); add("bin", 4, "U", 1)
         add("misc", 2, "S", 1); add("misc", 3, "S", 1); add("misc", 2, "U", 1); add("misc", 3, "U", 1); add("misc", 4, "U", 1)
         add("mca", 3, "S", 1); add("mca", 4, "S", 1); add("mca", 2, "U", 1); add("mca", 3, "U", 1)
+        add("deg", 3, "S", 1); add("deg", 4, "S", 1); add("deg", 2, "S", 1); add("deg", 3, "U", 1)
     else:
         add("bin", 3, "S", 10); add("bin", 4, "S", 10); add("bin", 3, "U", 4); add("bin", 4, "U", 3); add("misc", 4, "S", 6)
         add("misc", 3, "S", 2); add("misc", 4, "U", 3); add("bin", 2, "S", 1); add("bin", 2, "U", 1)
         add("misc", 2, "S", 1); add("misc", 2, "U", 1); add("misc", 3, "U", 1)
+        add("deg", 2, "S", 1); add("deg", 3, "S", 1); add("deg", 4, "S", 1); add("deg", 2, "U", 1); add("deg", 3, "U", 1); add("deg", 4, "U", 1)
         add("mca", 4, "S", 3); add("mca", 4, "U", 2); add("mca", 3, "S", 1); add("mca", 3, "U", 1); add("mca", 2, "S", 1); add("mca", 2, "U", 1)
     jobs.append(("meta", 0, "S", 0, 1))
     return jobs
@@ -314,7 +325,7 @@ def replay_task(t):
         if "unexpected_exception" in obs:
             out["mismatches"].append({"case": c, "op": c["a"], "fam": "*", "field": "unexpected_exception", "expected": None, "observed": obs})
             continue
-        akey = c["a"] + ("/" + c["cls"] if c.get("cls") in ("extremes", "ties", "float-rhs", "wide-int-rhs") else "")
+        akey = c["a"] + ("/" + c["cls"] if c.get("cls") in CLASSES else "")
         out["by_action"][akey] = out["by_action"].get(akey, 0) + 1
         k = nontrivial_key(c)
         if k is not None:
@@ -342,6 +353,9 @@ def replay_task(t):
 
 
 def signature(n, ty, mm):
+    toks = mm["fam"].split(".")
+    if "alias" in toks and "ca" in toks and toks[0] == "vs":
+        return ALIAS_SIG
     return "vec.h/%s(vec%s,%s,%s)/%s" % (mm["op"], n, ty, mm["fam"], mm["field"])
 
 
@@ -424,6 +438,8 @@ EDGE = {
 }
 IRANGE = {"uc": (0, 255), "c": (-127, 127), "us": (0, 65535), "s": (-32767, 32767), "ui": (0, 4294967295), "i": (-2147483647, 2147483647),
           "ul": (0, 2 ** 62), "l": (-2 ** 62, 2 ** 62)}          # the most negative value of the signed types is left out (no INT_MIN / -1)
+IBOUND = [0, 1, 2, 127, 128, 129, 255, 256, 257, 511, 512, 513, 1023, 1024, 1025, 4095, 4096, 4097, 32767, 32768, 65535, 65536, 65537,
+          2 ** 31 - 1, 2 ** 31, 2 ** 31 + 1, 2 ** 32 - 1, 2 ** 32, 2 ** 32 + 1]
 LIFT_MIN = 20          # every (operator, family, element type, shape) must have been judged on at least this many records
 
 
@@ -452,8 +468,11 @@ def lift_cases(rnd, ty, n, ndiv, nzero):
             x = rnd.random()
             if x < 0.4:
                 v = rnd.randint(max(lo, -100), min(hi, 100))
-            elif x < 0.5:
+            elif x < 0.47:
                 v = rnd.choice((lo, hi, hi - 1, max(lo, -1), 1, 2, 3, 7, 10))
+            elif x < 0.62:
+                v = rnd.choice(IBOUND) * (rnd.choice((1, 1, -1)) if lo < 0 else 1)        # 2^k - 1, 2^k, 2^k + 1
+                v = max(lo, min(hi, v))
             else:
                 v = rnd.randint(lo, hi) >> rnd.choice((0, 0, 0, 3, 9, 20))
                 v = max(lo, min(hi, v))
@@ -475,8 +494,38 @@ def lift_cases(rnd, ty, n, ndiv, nzero):
         if not div:
             i = rnd.randrange(n)
             a[i], b[i] = rnd.choice(((0.0, -0.0), (-0.0, 0.0), (0.0, 0.0), (-0.0, -0.0), (0.0, 3.0), (5.0 / 3.0 if ty == "d" else _f32(5.0 / 3.0), -0.0)))
-        cases.append({"a": "Lift", "arg": {"a": a, "b": b, "s": val(True), "bi": [rnd.randint(1, 100) for _ in range(n)], "si": rnd.randint(1, 100),
-                                             "div": div}})
+        arg = {"a": a, "b": b, "s": val(True), "bi": [rnd.randint(1, 100) for _ in range(n)], "si": rnd.randint(1, 100), "div": div}
+        if flt and rnd.random() < 0.3:
+            # infinite operands (named by the statement's quantifier); JSON has no infinity: a code per component (1: +inf, -1: -inf)
+            ia, ib = [0] * n, [0] * n
+            for _ in range(rnd.choice((1, 1, 2))):
+                (ia if rnd.random() < 0.5 else ib)[rnd.randrange(n)] = rnd.choice((1, -1))
+            if rnd.random() < 0.3:
+                i = rnd.randrange(n)
+                ia[i], ib[i] = rnd.choice(((1, 1), (1, -1), (-1, 1)))                    # inf op inf: NaN for - and /
+            arg["a_inf"], arg["b_inf"] = ia, ib
+            if rnd.random() < 0.3:
+                arg["s_inf"] = rnd.choice((1, -1))
+        cases.append({"a": "Lift", "arg": arg})
+    if flt:
+        # fixed degenerate pairs, at a different component each: inf op inf (same and opposite sign: NaN for - resp. +, and for /),
+        # 0 * inf, inf against a scalar inf - every shape and type has them, whatever the seed
+        for j, (ca, cb, cs, za) in enumerate(((1, 1, 0, False), (1, -1, 0, False), (0, 1, 0, True), (-1, 0, 1, False), (-1, -1, -1, False))):
+            c = json.loads(json.dumps(cases[j]))
+            arg = c["arg"]
+            arg["div"] = True
+            arg["b"] = [x if x != 0 else 3.0 for x in arg["b"]]
+            i = j % n
+            ia, ib = [0] * n, [0] * n
+            ia[i], ib[i] = ca, cb
+            if za:
+                arg["a"][i] = 0.0
+            arg["a_inf"], arg["b_inf"] = ia, ib
+            if cs:
+                arg["s_inf"] = cs
+            else:
+                arg.pop("s_inf", None)
+            cases.append(c)
     return cases
 
 
@@ -561,7 +610,8 @@ def lift_type(chk, exe, ty, cases, tag="all"):
     chk.cov["traces_validated_against_impl"] += len(recs)
     chk.log("lifting law %s: %d records, %d (record, operator, family) triples judged by TLC (VecLiftValidate), %d records rejected, %.1fs"
             % (CXX[ty], len(recs), judged, len(rejected), time.time() - t0))
-    return {"ty": ty, "records": len(recs), "judged": judged, "counts": counts, "inexact": inexact, "rejected": len(rejected)}
+    return {"ty": ty, "records": len(recs), "judged": judged, "counts": counts, "inexact": inexact, "rejected": len(rejected),
+            "inf_cases": sum(1 for c in cases if "a_inf" in c["arg"])}
 
 
 def lift_guards(chk, outs):
@@ -578,7 +628,13 @@ def lift_guards(chk, outs):
                 raise tla.InfraError("vacuity guard: lifting law %s %s vec%d %s judged on %d records only" % (op, fam, n, ty, k))
             ops.setdefault(op, set()).add(fam)
             keys += 1
-        need = ["div", "min", "max", "neg", "pos", "eq", "ne", "anylt", "less"] + (["add", "sub", "mul", "rcp", "rcp_safe", "sin", "cos", "abs"] if flt else ["mod", "dru"])
+        need = ["div", "min", "max", "neg", "pos", "eq", "ne", "anylt", "less", "conv"] + (["add", "sub", "mul", "rcp", "rcp_safe", "sin", "cos", "abs"] if flt else ["mod", "dru", "lprod"])
+        if ty in ("uc", "c", "us", "s", "ui", "ul"):
+            need += ["add", "sub"]              # integer + - where the language defines every result (wrap-around / computed in int)
+        if ty in ("uc", "c", "s", "ui", "ul"):
+            need += ["mul"]
+        if ty == "f":
+            need += ["linear_to_srgba", "cvt_uint32"]
         for op in need:
             if not ops.get(op):
                 raise tla.InfraError("vacuity guard: lifting law: operator %s never judged for %s" % (op, ty))
@@ -587,13 +643,15 @@ def lift_guards(chk, outs):
                 raise tla.InfraError("vacuity guard: lifting law: family %s of operator/ never judged for %s" % (fam, ty))
         if not any(".mx_" in f for f in ops["div"]) or (flt and not any(".mx_" in f and ".ca" in f for f in ops["mul"])):
             raise tla.InfraError("vacuity guard: lifting law: mixed element type families never judged for %s" % ty)
+        if flt and not o.get("inf_cases"):
+            raise tla.InfraError("vacuity guard: lifting law: no infinite operands for %s" % ty)
         for n in (2, 3, 4):
             ie = o["inexact"].get(n, {})
             if not ie.get("div") or not ie.get("div_s") or (flt and not ie.get("mul")):
                 raise tla.InfraError("vacuity guard: lifting law: no inexact %s among the vec%d operands of %s: %s" % ("product / quotient" if flt else "quotient", n, ty, ie))
         total += o["judged"]
         summary[ty] = {"records": o["records"], "judged": o["judged"], "operator_family_shape_keys": len(o["counts"]),
-                       "inexact_component_pairs": {str(n): v for n, v in sorted(o["inexact"].items())}}
+                       "inexact_component_pairs": {str(n): v for n, v in sorted(o["inexact"].items())}, "cases_with_infinite_operands": o.get("inf_cases", 0)}
     chk.cov["lifting_law"] = {"judged": total, "operator_family_type_shape_keys": keys, "min_records_per_key": LIFT_MIN, "per_element_type": summary}
     chk.cov["action_counts"]["Lift"] = sum(o["records"] for o in outs)
 
@@ -769,7 +827,7 @@ def run_all(chk, quick, rnd, pool):
 
     # collect the replays
     tol_recs, fam_seen, by_action = [], {}, {}
-    per_type = {ty: {"cases": 0, "results": 0, "extremes": 0, "ties": 0, "float-rhs": 0, "wide-int-rhs": 0, "driver_s": 0.0} for ty in TYPES}
+    per_type = {ty: dict({"cases": 0, "results": 0, "extremes": 0, "driver_s": 0.0}, **{k: 0 for k in CLASSES if k != "extremes"}) for ty in TYPES}
     total_results = 0
     for job, ty, fut in pending:
         try:
@@ -787,8 +845,9 @@ def run_all(chk, quick, rnd, pool):
         per_type[ty]["cases"] += out["cases"]
         per_type[ty]["results"] += out["results"]
         per_type[ty]["extremes"] += out["by_action"].get("Cmp/extremes", 0)
-        for k in ("ties", "float-rhs", "wide-int-rhs"):
-            per_type[ty][k] += out["cls_results"].get(k, 0)
+        for k in CLASSES:
+            if k != "extremes":
+                per_type[ty][k] += out["cls_results"].get(k, 0)
         per_type[ty]["driver_s"] = round(per_type[ty]["driver_s"] + out["wall"], 1)
         total_results += out["results"]
         tol_recs += out["tol"]
@@ -810,11 +869,12 @@ def run_all(chk, quick, rnd, pool):
     lift_guards(chk, lift_outs)
 
     # vacuity guards: every case group, every operation of the statement, every family kind, every element type
-    chk.require_actions(["Un", "Un/ties", "Bin", "Cmp", "Cmp/extremes", "Tern", "Conv", "Tol", "Zero", "Mca/float-rhs", "Mca/wide-int-rhs"])
+    chk.require_actions(["Un", "Un/ties", "Un/bytes", "Bin", "Bin/zeros", "Bin/parallel", "Alias/alias", "Cmp", "Cmp/extremes", "Tern", "Conv",
+                         "Conv/boundaries", "Tol", "Zero", "Mca/float-rhs", "Mca/wide-int-rhs"])
     chk.require_actions(TRACE_ACTIONS)
     need_ops = ["neg", "pos", "abs", "radd", "rmul", "rmin", "rmax", "argmax", "idx", "eqself", "stream", "lprod", "length", "add", "sub", "mul", "div",
                 "mod", "min", "max", "dru", "dot", "cross", "eq", "ne", "anylt", "less", "interp", "clamp", "madd", "lerp", "splat", "conv", "v3from2",
-                "v4from22", "v4from3", "repad", "sin0", "cos0", "result-type"]
+                "v4from22", "v4from3", "repad", "sin0", "cos0", "length0", "safenorm0", "result-type"]
     for op in need_ops:
         if not fam_seen.get(op):
             raise tla.InfraError("vacuity guard: operation %s was never compared" % op)
@@ -826,10 +886,16 @@ def run_all(chk, quick, rnd, pool):
     for ty in TYPES:
         if per_type[ty]["results"] == 0 or per_type[ty]["extremes"] == 0 or per_type[ty]["ties"] == 0:
             raise tla.InfraError("vacuity guard: nothing (or no extreme operands / no equal components) was compared for element type %s" % ty)
+        for k in ("zeros", "parallel", "alias", "bytes", "boundaries"):
+            if per_type[ty][k] == 0:
+                raise tla.InfraError("vacuity guard: no case of class %s was compared for element type %s" % (k, ty))
         # compound assignment with a right-hand side of another arithmetic type: every integer element type must have been compared against
         # a fractional floating-point right-hand side and against an integer right-hand side outside the narrow types
         if ty not in ("f", "d") and (per_type[ty]["float-rhs"] == 0 or per_type[ty]["wide-int-rhs"] == 0):
             raise tla.InfraError("vacuity guard: no mixed-type compound assignment was compared for element type %s" % ty)
+    for fam in ["vs.ca.alias", "vs.ca.alias.p", "vv.ca.alias", "vs.alias.u", "vv.alias"]:
+        if not any(fam in fam_seen.get(op, ()) for op in ("add", "sub", "mul", "div")):
+            raise tla.InfraError("vacuity guard: aliasing family %s was never compared" % fam)
     for fam in ["vs.ca.sx_f", "vs.ca.sx_d.u", "vs.ca.sx_i.p", "vs.ca.sx_l", "vv.ca.sx_f.p", "vv.ca.sx_d"]:
         if not any(fam in fam_seen.get(op, ()) for op in ("add", "sub", "mul", "div")):
             raise tla.InfraError("vacuity guard: compound-assignment family %s was never compared" % fam)
